@@ -16,7 +16,8 @@ EXPLANATION = (
     "deflate::get_dictionary have a count of the form min(.., avail_*) / range length. LINT: #![forbid(unsafe_code)] is in "
     "force for every function of fast, medium, slow, huff, quick, rle, hash_calc, trees_tbl (and inftrees). Progress "
     "(Finish reaches stream end) and implicit bounds checks are not decided. "
-    "GUARD/signed-offset: `block_start as usize` in any function that can run in an algorithm which reaches fill_window (the only unguarded subtraction from block_start) is used only under block_start >= 0 (dominating test or `(block_start >= 0).then_some(..)`).")
+    "GUARD/signed-offset: `block_start as usize` in any function that can run in an algorithm which reaches fill_window (the only unguarded subtraction from block_start) is used only under block_start >= 0 (dominating test or `(block_start >= 0).then_some(..)`). "
+    "ORDER/slide-rebase: fill_window clamps `insert` against strstart only after strstart was rebased. SIB/ref-conditions: the elementary conditions and calls of the zlib-ng functions this code was ported from (oracles/condparity.json, frozen from the vendored C sources) keep a counterpart in the paired zlib-rs function.")
 
 CLAIM = dict(
     text="Static: call-graph inventory of explicit abort constructs against a justified table; expression-shape guards on "
